@@ -106,6 +106,14 @@ func init() {
 				return true
 			}
 			if id, ok := r.(*ast.Ident); ok {
+				// `v := fn(…)` / `v = fn(…)` immediately followed by `return v`
+				if call := c33PrevAssignedCall(info, stack, rs, id); call != nil {
+					if fid, ok := unparen(call.Fun).(*ast.Ident); ok && info.ObjectOf(fid) == fnParam {
+						nViaFn++
+						c.OK("R33f", key, rs.Pos(), "returns the selected writer's result (through %s)", id.Name)
+						return true
+					}
+				}
 				// must be an error variable known non-nil here
 				nonNil := false
 				for _, ft := range factsOf(guardsAt(info, stack)) {
@@ -142,4 +150,35 @@ func isNilIdent(info *types.Info, e ast.Expr) bool {
 	}
 	_, isNil := info.ObjectOf(id).(*types.Nil)
 	return isNil
+}
+
+// c33PrevAssignedCall: rs is `return id` and the statement just before it in the same block is
+// `id := <call>` / `id = <call>`; returns that call.
+func c33PrevAssignedCall(info *types.Info, stack []ast.Node, rs *ast.ReturnStmt, id *ast.Ident) *ast.CallExpr {
+	if len(stack) < 2 {
+		return nil
+	}
+	var list []ast.Stmt
+	switch b := stack[len(stack)-2].(type) {
+	case *ast.BlockStmt:
+		list = b.List
+	case *ast.CaseClause:
+		list = b.Body
+	}
+	for i, s := range list {
+		if s != ast.Stmt(rs) || i == 0 {
+			continue
+		}
+		as, ok := list[i-1].(*ast.AssignStmt)
+		if !ok || len(as.Lhs) != 1 || len(as.Rhs) != 1 {
+			return nil
+		}
+		lid, ok := as.Lhs[0].(*ast.Ident)
+		if !ok || info.ObjectOf(lid) != info.ObjectOf(id) {
+			return nil
+		}
+		call, _ := unparen(as.Rhs[0]).(*ast.CallExpr)
+		return call
+	}
+	return nil
 }
